@@ -165,8 +165,16 @@ def conformance(d, rows, max_rounds=6):
             "conformance_runs_checked": modelled_runs, "conformance_drift_runs": len(drift), "conformance_drift": drift[:3]}
 
 
+def _c01_key(line, rows, l):
+    """agreement:<ruleset>, or agreement:<ruleset>:<job> for a run that plays one of the hand-written scripts (spec/handwritten):
+    a known finding names exactly one such history, any other divergence of the same ruleset has another key and is reported"""
+    r0 = rows[run_id(rows, l)]
+    job = (r0.get("script") or {}).get("job", "")
+    return "agreement:%s:%s" % (r0["rs"], job) if job.startswith("fhs-") else "agreement:%s" % r0["rs"]
+
+
 KEYS = {
-    "C01": lambda line, rows, l: "agreement:%s" % rows[run_id(rows, l)]["rs"],
+    "C01": _c01_key,
     "C03": lambda line, rows, l: "vote:%s" % rows[run_id(rows, l)]["rs"],
     "C06": lambda line, rows, l: "exec:%s" % rows[run_id(rows, l)]["rs"],
     "C07": lambda line, rows, l: "pacemaker:%s" % rows[run_id(rows, l)]["rs"],
@@ -182,6 +190,16 @@ WHAT = {
 
 
 SCRIPTS = os.path.join(vlib.SPEC, "generated", "scripts.ndjson")
+HANDWRITTEN = os.path.join(vlib.SPEC, "handwritten", "fhs_scripts.ndjson")
+
+
+def play_handwritten(d, seed):
+    """The hand-written adversary scripts (Fast-HotStuff: proposals that carry a genuine aggregate QC assembled from the honest
+    replicas' own timeout messages), played by the same player."""
+    tr, st = os.path.join(d, "attack_hw.ndjson"), os.path.join(d, "attack_hw_status.ndjson")
+    vlib.run_harness(["attack", "-scripts", HANDWRITTEN, "-out", tr, "-status", st, "-seed", seed], timeout=600)
+    status = vlib.read_ndjson(st)
+    return tr, {"handwritten_scripts": [{k: s[k] for k in ("job", "status", "at", "commits", "notes")} for s in status]}
 
 
 def play_scripts(d, seed, max_scripts):
@@ -248,7 +266,7 @@ def iter_chunks(files, max_rows=None):
         yield rows
 
 
-def run_property(prop, tier, seed, driver_args, rule, extra_cov=None, assumptions=None, scripts=0, more=(), models=False):
+def run_property(prop, tier, seed, driver_args, rule, extra_cov=None, assumptions=None, scripts=0, more=(), models=False, handwritten=False):
     """Common body of C01/C03/C05/C06/C07."""
     t0 = time.time()
     v = vlib.Verdict(prop)
@@ -282,6 +300,10 @@ def run_property(prop, tier, seed, driver_args, rule, extra_cov=None, assumption
         if scripts:
             apath, script_cov = play_scripts(d, seed, scripts)
             files.append((apath, False))
+        if handwritten:
+            hpath, hcov = play_handwritten(d, seed)
+            script_cov.update(hcov)
+            files.append((hpath, False))
         cfg = "Trace_P_%s.cfg" % prop
         for allrows in iter_chunks(files):
             rows = allrows
